@@ -28,10 +28,14 @@ static std::set<std::string> Stubbed;      // defined functions whose body is re
 static std::set<std::string> RtGlobals;
 static std::map<std::string,std::string> Renames; // defined function emitted under another name (runtime wraps it)
 static std::map<std::string,std::string> Redirects; // calls to a defined function go to a harness-provided replacement
+static std::vector<std::string> KeepIn; // callers (name prefixes) inside which the --emptystr cut does not apply
 static bool UndefNondet = false; // translate IR undef operands as fresh nondeterministic values
 static std::vector<std::string> EmptyStrPrefixes; // defined functions returning std::string by sret that are cut to return ""
 static bool isEmptyStr(const Function &F) { if (F.isDeclaration() || F.arg_size()==0 || !F.hasParamAttribute(0, Attribute::StructRet)) return false; for (auto &p : EmptyStrPrefixes) if (F.getName().startswith(p)) return true; return false; }    // external globals provided by rt.c
 static bool die_on_unsupported = true;
+static bool keepIn(const Function *caller) { for (auto &p : KeepIn) if (caller->getName().startswith(p)) return true; return false; }
+// a call that is cut to "returns the empty string": callee matches --emptystr and the caller is not whitelisted
+static bool cutCall(const CallBase &CB) { const Function *CF = CB.getCalledFunction(); return CF && isEmptyStr(*CF) && !keepIn(CB.getFunction()); }
 
 [[noreturn]] static void fail(const std::string &m) { errs() << "ir2c: unsupported: " << m << "\n"; exit(2); }
 
@@ -434,6 +438,7 @@ static void emitCall(FnCtx &X, const CallBase &CB, std::ostream &os, const std::
     else os << "__CPROVER_cover(" << arg(0) << "!=0);";
     return;
   }
+  if (cutCall(CB)) { os << "__vf_str_empty(" << arg(0) << ");"; return; }
   std::string callee;
   FunctionType *FT = CB.getFunctionType();
   if (CF) callee = gname(CF);
@@ -719,6 +724,7 @@ int main(int argc, char **argv) {
     else if (a == "--emptystr" && i + 1 < argc) EmptyStrPrefixes.push_back(argv[++i]);
     else if (a == "--redirect" && i + 1 < argc) { std::string kv = argv[++i]; auto p = kv.find('='); Redirects[kv.substr(0, p)] = kv.substr(p + 1); }
     else if (a == "--undef-nondet") UndefNondet = true;
+    else if (a == "--keep-in" && i + 1 < argc) KeepIn.push_back(argv[++i]);
     else if (a == "--funcs" && i + 1 < argc) funcsFile = argv[++i];
     else { errs() << "ir2c: unknown option " << a << "\n"; return 1; }
   }
@@ -751,9 +757,11 @@ int main(int argc, char **argv) {
     const GlobalValue *G = work.back(); work.pop_back();
     if (auto *F = dyn_cast<Function>(G)) {
       { auto rit = Redirects.find(F->getName().str()); if (rit != Redirects.end()) { if (auto *T = M->getFunction(rit->second)) mark(T); else fail("redirect target " + rit->second); continue; } }
-      if (F->isDeclaration() || Stubbed.count(F->getName().str()) || isEmptyStr(*F)) continue;
+      if (F->isDeclaration() || Stubbed.count(F->getName().str())) continue;
       for (auto &BB : *F) for (auto &I : BB) {
-        for (auto &Op : I.operands()) if (auto *OC = dyn_cast<Constant>(Op)) scanConst(OC);
+        const Value *skip = nullptr;
+        if (auto *CB = dyn_cast<CallBase>(&I)) if (cutCall(*CB)) skip = CB->getCalledOperand();
+        for (auto &Op : I.operands()) if (Op.get() != skip) if (auto *OC = dyn_cast<Constant>(Op)) scanConst(OC);
         if (auto *LP = dyn_cast<LandingPadInst>(&I))
           for (unsigned i = 0; i < LP->getNumClauses(); i++) scanConst(LP->getClause(i));
       }
@@ -800,7 +808,6 @@ int main(int argc, char **argv) {
   }
   for (auto &F : *M) {
     if (!live.count(&F) || F.isDeclaration() || Stubbed.count(F.getName().str()) || Redirects.count(F.getName().str())) continue;
-    if (isEmptyStr(F)) { funcs << protoOf(F) << " { __vf_str_empty(a0); }\n\n"; continue; }
     emitFunction(F, funcs);
     emitted.push_back(F.getName().str());
   }
